@@ -29,9 +29,11 @@ MAX_DEPTH = 24
 
 
 class Path:
-    __slots__ = ('conds', 'locals', 'mem', 'defmem', 'ret', 'kind', 'maymem')
+    __slots__ = ('conds', 'locals', 'mem', 'defmem', 'ret', 'kind', 'maymem', 'events', 'exit_hit')
 
     def __init__(self):
+        self.events = []      # ordered side effects on this path: (kind, detail, loc)
+        self.exit_hit = None
         self.conds = []
         self.locals = {}      # local id -> term
         self.mem = {}         # member path -> term (written during this invocation)
@@ -45,6 +47,8 @@ class Path:
         p.mem = dict(self.mem)
         p.ret = self.ret
         p.kind = self.kind
+        p.events = list(self.events)
+        p.exit_hit = self.exit_hit
         return p
 
 
@@ -66,6 +70,7 @@ class Trace:
         self.calls = []         # every call node seen (after inlining decisions): (q, loc, inlined?)
         self.coords_read = set()
         self.switch_labels = []  # list of label tuples, one per switch executed
+        self.exit_paths = []     # paths of inlined callees that terminate the process
         self.obj_calls = []      # library method calls on member objects: (path, method, arg terms, loc)
 
 
@@ -87,13 +92,14 @@ def is_num(t, v=None):
 
 
 class Evaluator:
-    def __init__(self, prog, dyn_class=None, scalar='double', inline=True, opaque=(), regmap=None):
+    def __init__(self, prog, dyn_class=None, scalar='double', inline=True, opaque=(), regmap=None, noreturn=()):
         self.prog = prog
         self.dyn_class = dyn_class
         self.scalar = scalar
         self.inline = inline
         self.opaque = set(opaque)      # function names never inlined
         self.regmap = regmap            # registered parameter name -> member path (set_var modelled as a store)
+        self.noreturn = set(noreturn)  # repository functions that never return (proved by C16.R4)
         self.trace = Trace()
         self.memo = {}
 
@@ -232,6 +238,20 @@ class Evaluator:
             return ('sym', 'fn:' + e['q'])
         if k == 'zeroinit':
             return num(0)
+        if k == 'new':
+            P.events.append(('new', e.get('ty'), e.get('l')))
+            return ('new', e.get('ty'), e.get('l'))
+        if k == 'delete':
+            t = self.E(e['e'], P, fr)
+            P.events.append(('delete', t, e.get('l')))
+            return ('unk', 'delete')
+        if k == 'throw':
+            t = self.E(e['e'], P, fr) if e.get('e') else None
+            P.events.append(('throw', (t, e.get('ty')), e.get('l')))
+            P.exit_hit = e.get('l')
+            return ('unk', 'throw')
+        if k == 'nullptr':
+            return num(0)
         return ('unk', k)
 
     @staticmethod
@@ -282,6 +302,7 @@ class Evaluator:
             if path is not None:
                 P.mem[path] = v
                 self.trace.writes.setdefault(path, []).append(loc)
+                P.events.append(('write', path, loc))
                 return
         if k == 'param':
             # by-value parameter reassigned, or reference parameter bound to something of the caller
@@ -313,6 +334,7 @@ class Evaluator:
                     old = P.mem.get(path, ('sym', path))
                     P.mem[path] = ('call', 'elemstore', (old, self.E(idx, P, fr), v))
                     self.trace.writes.setdefault(path, []).append(loc)
+                    P.events.append(('write', path, loc))
                     return
             if bt.get('k') == 'local':
                 idx = t['idx'] if k == 'index' else t['args'][1]
@@ -358,7 +380,14 @@ class Evaluator:
             if n == 'epsilon':
                 return ('sym', 'const:epsilon')
             if n == 'operator<<':
+                for a in args:
+                    if a[0] == 'str':
+                        P.events.append(('print', a[1], loc))
                 return ('unk', 'ostream')
+            if n in ('exit', '_exit', '_Exit', 'abort', 'quick_exit', 'terminate'):
+                P.events.append(('terminate', (n, args), loc))
+                P.exit_hit = loc
+                return ('unk', 'noreturn')
             if obj is not None:
                 ob = strip(obj, casts=True)
                 if ob.get('k') == 'member':
@@ -366,6 +395,7 @@ class Evaluator:
                     if path is not None:
                         self.trace.obj_calls.append((path, n, args, loc))
                         if n in ('resize', 'push_back', 'assign', 'clear', 'operator=', 'insert', 'erase', 'pop_back', 'swap'):
+                            P.events.append(('write', path, loc))
                             P.mem[path] = ('call', 'container:' + n, (P.mem.get(path, ('sym', '@old:' + path)),) + tuple(args))
                             self.trace.writes.setdefault(path, []).append(loc)
                         return ('unk', 'call ' + q)
@@ -375,6 +405,11 @@ class Evaluator:
             return ('unk', 'call ' + q)
         # ---- repository function
         self.trace.calls.append((q, loc))
+        if n in self.noreturn:
+            args = tuple(self.E(a, P, fr) for a in args_e)
+            P.events.append(('noreturn-call', (n, args), loc))
+            P.exit_hit = loc
+            return ('unk', 'noreturn')
         if n in ('set_var', 'set_vec') and 'manufactured_solution<' in e.get('rec', ''):
             from .ast import str_value
             nm = str_value(args_e[0])
@@ -391,6 +426,7 @@ class Evaluator:
         if target is None or not self.inline or n in self.opaque or fr['depth'] >= MAX_DEPTH:
             args = tuple(self.E(a, P, fr) for a in args_e)
             self.trace.unknown_calls.append((q, loc))
+            P.events.append(('call', (q, args), loc))
             return ('call', 'repo:' + n, args)
         fn, this_path = target
         args = []
@@ -451,8 +487,17 @@ class Evaluator:
         sub = {'id': self.new_frame_id(), 'args': list(args), 'this': this_path, 'depth': fr['depth'] + 1, 'fn': fn}
         # execute on the single current path; callee paths are folded into an ite chain
         outs = self.exec_block(stmts(fn.body), [P], sub, top=True)
-        rets = [p for p in outs if p.kind == 'ret']
-        falls = [p for p in outs if p.kind != 'ret']
+        exits = [p for p in outs if p.kind == 'exit']
+        if exits:
+            self.trace.exit_paths.extend(exits)
+            outs = [p for p in outs if p.kind != 'exit']
+            if not outs:
+                # the callee never returns on this path
+                e0 = exits[0]
+                P.events = e0.events
+                P.conds = e0.conds
+                P.exit_hit = e0.exit_hit or '?'
+                return ('unk', 'noreturn')
         if len(outs) == 1:
             p = outs[0]
             r = p.ret if p.kind == 'ret' and p.ret is not None else ('unk', 'void')
@@ -545,7 +590,7 @@ class Evaluator:
             return [P]
         if k == 'return':
             P.ret = self.E(s['e'], P, fr) if s.get('e') is not None else None
-            P.kind = 'ret'
+            P.kind = 'exit' if P.exit_hit is not None else 'ret'
             return [P]
         if k == 'break':
             P.kind = 'break'
@@ -583,6 +628,8 @@ class Evaluator:
             return [P]
         # expression statement
         self.E(s, P, fr)
+        if P.exit_hit is not None:
+            P.kind = 'exit'
         return [P]
 
     @staticmethod
@@ -687,7 +734,7 @@ class Evaluator:
         if s.get('c') is not None and s['k'] != 'do':
             self.E(s['c'], P, fr)
         body_paths = self.exec_stmt(s['body'], P.fork(), fr)
-        rets = [p for p in body_paths if p.kind == 'ret']
+        rets = [p for p in body_paths if p.kind in ('ret', 'exit')]
         for p in body_paths:
             if s['k'] == 'for' and s.get('inc') is not None and p.kind in ('fall', 'cont'):
                 self.E(s['inc'], p, fr)
